@@ -30,7 +30,14 @@ import (
 func FamilyAtoms(prop string, quick bool, pick func(n int) int) (out []OutsideAtom) {
 	eff, str, nam, ty, ifi, bod := effectOnceAtoms(), append(stringLiteralAtoms(), literalSpellingAtoms()...), namedLikeAtoms(), typeNestingAtoms(), ifInitAtoms(), bodyShapeAtoms()
 	rej := rejectedConstructFamilies()
-	rej = append(rej, Round9Families()...)
+	r9 := Round9Families()
+	if quick {
+		// the dimensions of these families are independent of where the statement stands: two positions
+		for i := range r9 {
+			r9[i].Positions = []string{"first", "inloop"}
+		}
+	}
+	rej = append(rej, r9...)
 	if !quick {
 		all := append(append(append(append(append([]OutsideAtom{}, eff...), str...), nam...), ty...), bod...)
 		if prop == "C02" {
